@@ -1,8 +1,43 @@
-(** C16 - JSON-any codecs. Sizes and skipping are proved for all JSON-model
-    trees; the round trip is decided by the correspondence (and proved in
-    JsonRoundtrip.v as it grows). *)
-From Plenc Require Import Base Varint Wire JsonAny Codec SizeProofs JsonProofs.
+(** C16 - JSON-any codecs.  For all JSON-model trees (any depth and width):
+    the round trip through readJSONKV / JSONArrayCodec / JSONMapCodec, sizes,
+    and skipping as an unknown field. *)
+From Plenc Require Import Base Varint Wire JsonAny Codec SizeProofs JsonProofs JsonRoundTrip Descriptor Output JsonWalk.
 Open Scope N_scope.
+
+(** every JSON-model value - nil, bool, int, float64, string, json.Number,
+    arrays and objects nested to any depth, empty keys / strings / containers
+    anywhere - reads back as itself, consuming exactly its encoding, given
+    enough fuel ([jfuel] of the data always is: C16_array_roundtrip below).
+    [wfj]: float bit patterns are 64-bit and object keys distinct (a Go map);
+    [jfits]: lengths below 2^64. *)
+Theorem C16_value_roundtrip : forall j, jfits j -> wfj j -> forall fuel hk c key, (4 * jh j <= fuel)%nat ->
+  jread_kv fuel hk (jenc_value j) c key 0 JNil = Ok (key, j, c + len (jenc_value j)).
+Proof. exact json_value_roundtrip. Qed.
+Print Assumptions C16_value_roundtrip.
+
+(** JSONArrayCodec / JSONMapCodec on their own output, whatever follows it *)
+Theorem C16_array_roundtrip : forall l more, jfits (JArr l) -> wfj (JArr l) ->
+  jread_arr (jfuel (jarr_body l ++ more)) (jarr_body l ++ more) = Ok (l, len (jarr_body l)).
+Proof. exact json_array_roundtrip. Qed.
+Print Assumptions C16_array_roundtrip.
+Theorem C16_map_roundtrip : forall l more, jfits (JObj l) -> wfj (JObj l) ->
+  jread_map (jfuel (jmap_body l ++ more)) (jmap_body l ++ more) [] = Ok (l, len (jmap_body l)).
+Proof. exact json_map_roundtrip. Qed.
+Print Assumptions C16_map_roundtrip.
+
+(** at top level and as a struct field (the codecs of the generic model): the
+    decoded value is the encoded one; a nil container and an empty one are
+    interchangeable (both decode to the non-nil form) *)
+Theorem C16_codec_array : forall p l more wt prior, jfits (JArr l) -> wfj (JArr l) ->
+  dec CJArr (enc CJArr (VJson p (JArr l)) [] ++ more) wt prior
+  = Ok (VJson false (JArr l), len (enc CJArr (VJson p (JArr l)) [])).
+Proof. exact dec_enc_jarr. Qed.
+Print Assumptions C16_codec_array.
+Theorem C16_codec_map : forall p l more wt pn, jfits (JObj l) -> wfj (JObj l) ->
+  dec CJMap (enc CJMap (VJson p (JObj l)) [] ++ more) wt (VJson pn (JObj []))
+  = Ok (VJson false (JObj l), len (enc CJMap (VJson p (JObj l)) [])).
+Proof. exact dec_enc_jmap. Qed.
+Print Assumptions C16_codec_map.
 
 Theorem C16_size_value : forall j, jfits j -> jsize_value j = len (jenc_value j).
 Proof. exact jsize_value_law. Qed.
@@ -24,13 +59,47 @@ Theorem C16_skip_arr : forall l rest, jfits (JArr l) ->
 Proof. exact skip_json_arr. Qed.
 Print Assumptions C16_skip_arr.
 
+(** walking the same bytes with the codec's Descriptor emits exactly the
+    Outputter calls of the value ([jev]), consuming exactly the encoding;
+    [jcount]: container lengths fit Go's int *)
+Theorem C16_walk_array : forall d p l more, descriptor_of CJArr = Ok d ->
+  jfits (JArr l) -> wfj (JArr l) -> jcount (JArr l) ->
+  walk d (enc CJArr (VJson p (JArr l)) [] ++ more) = wok (jev (JArr l)) (len (enc CJArr (VJson p (JArr l)) [])).
+Proof. exact walk_desc_jarr. Qed.
+Print Assumptions C16_walk_array.
+Theorem C16_walk_map : forall d p l more, descriptor_of CJMap = Ok d ->
+  jfits (JObj l) -> wfj (JObj l) -> jcount (JObj l) ->
+  walk d (enc CJMap (VJson p (JObj l)) [] ++ more) = wok (jev (JObj l)) (len (enc CJMap (VJson p (JObj l)) [])).
+Proof. exact walk_desc_jmap. Qed.
+Print Assumptions C16_walk_map.
+
+(** ... and those calls, fed to a new JSON outputter, produce the reference
+    rendering of the value's own call tree: the rendered JSON is a function of
+    the value alone.  [tok] is the rendering of number / bool / raw tokens by
+    strconv (outside the model; compared by the harness). *)
+Theorem C16_walk_renders : forall (tok : ev -> bytes) d p l, descriptor_of CJMap = Ok d ->
+  jfits (JObj l) -> wfj (JObj l) -> jcount (JObj l) ->
+  let w := walk d (enc CJMap (VJson p (JObj l)) []) in
+  w_out w = Ok (len (enc CJMap (VJson p (JObj l)) [])) /\
+  (do j <- o_run jout_init (map (oop_of tok) (w_ev w)); o_done j) = Ok (render 0 false (jtree tok (JObj l)) ++ [10]).
+Proof. exact json_walk_renders. Qed.
+Print Assumptions C16_walk_renders.
+Theorem C16_walk_renders_array : forall (tok : ev -> bytes) d p l, descriptor_of CJArr = Ok d ->
+  jfits (JArr l) -> wfj (JArr l) -> jcount (JArr l) ->
+  let w := walk d (enc CJArr (VJson p (JArr l)) []) in
+  w_out w = Ok (len (enc CJArr (VJson p (JArr l)) [])) /\
+  (do j <- o_run jout_init (map (oop_of tok) (w_ev w)); o_done j) = Ok (render 0 false (jtree tok (JArr l)) ++ [10]).
+Proof. exact json_arr_walk_renders. Qed.
+Print Assumptions C16_walk_renders_array.
+
 Example C16_ex :
   let j := JObj [([107], JArr [JNil; JInt (-1); JStr []]); ([], JObj [])] in
-  jfits j /\ match j with JObj l => jread_map (jfuel (jmap_body l)) (jmap_body l) [] = Ok (l, len (jmap_body l)) | _ => False end.
+  jfits j /\ wfj j /\ match j with JObj l => jread_map (jfuel (jmap_body l)) (jmap_body l) [] = Ok (l, len (jmap_body l)) | _ => False end.
 Proof.
-  cbv zeta. split.
+  cbv zeta. split; [|split].
   - cbn. unfold int64_ok, two63Z.
     repeat match goal with |- _ /\ _ => split | |- True => exact I | |- (_ < _)%N => vm_compute; reflexivity
                       | |- (_ <= _ < _)%Z => lia | |- (_ <= _)%Z => lia | |- (_ < _)%Z => lia end.
+  - cbn. repeat constructor; cbn; intuition discriminate.
   - vm_compute. reflexivity.
 Qed.
